@@ -13,6 +13,9 @@ checks = {
  "C04": ("exploration", "4.5, 6/C04",
          "Seeded simulation of upload sessions (content, partition into writes, chunk-size hint, close/resume/abandon/stale-offset pattern) on ocimem directly and through one or two ociclient->ociserver hops over the simulated network, which loses requests and responses, duplicates requests and breaks connections inside request bodies at seeded points. Oracles: committed bytes equal the bytes written, stale offsets are refused with RANGE_INVALID/416 and leave the session unaltered, a wrong digest stores nothing, and after the last fault the upload completes within a bounded number of calls.",
          "deterministic simulation with network fault injection (drop/duplicate/truncate at seeded exchanges, client crash), end-to-end byte oracle, bounded liveness after faults stop; choice-trace replay and minimisation"),
+ "C01": ("exploration", "4.5, 4.7, 6/C01",
+         "Seeded simulation in two families. F0: model-checked generated histories (all push paths incl. chunked, mount, single-POST, manifest by tag/digest; boundary-biased lengths and range pairs; mismatching pushes) on ocimem directly and behind one/two HTTP hops, ocidebug, select, sub and ociunify (the latter inside the deterministic scheduler): every complete read must return exactly the pushed bytes, hash to the requested digest, match the descriptor size; range reads must be the exact slice. F1: reads through a corrupting middlebox (byte flips, truncation, extension, Content-Length / Docker-Content-Digest / Content-Range rewrites, only wire-feasible): a read that ends cleanly must match its descriptor.",
+         "deterministic simulation: seeded histories against a reference model on a stack zoo, plus response-corruption fault injection at the simulated network with a digest/size oracle; choice-trace replay and minimisation"),
 }
 
 na = [
